@@ -29,6 +29,15 @@ CHECKS["C04"] = dict(
     note="Trusted: AEAD/DH/KDF primitives of ipv8_rust_tunnels; the reference encoding of cells (DESIGN Appendix B). "
          "e2e (hidden-service) circuits are not covered.")
 
+CHECKS["C05"] = dict(
+    category="exploration", design_ref="DESIGN.md 2/C05",
+    technique="stateful PBT (Hypothesis-drawn operation histories) with adversarial message injection on a simulated network",
+    text="Operation histories (open / send / reply / advance + forged cells, create-for-live-id, destroy from four kinds of "
+         "signer) are interpreted on 4-6 real TunnelCommunity nodes whose circuits share relays; per-circuit delivery logs "
+         "and an identity-level digest of all routing tables are compared around every step. Exploration only.",
+    note="Trusted: signature and AEAD primitives. Adversarial steps are judged with virtual time frozen. Honest 32-bit "
+         "circuit-id collisions are not engineered.")
+
 PENDING = {}
 
 def main():
